@@ -15,6 +15,7 @@ import numpy as np
 import core
 from core import Fraction, frac, rat
 
+MODELLED = ["evo/core/geometry.py:umeyama_alignment"]
 EPS_CERT = Fraction(1, 2 ** 30)
 EPS_C = 2.0 ** -40
 LD = np.longdouble
@@ -599,6 +600,7 @@ OPEN = ["numpy.linalg.svd is not modelled: the theorems start from the certifica
 
 def check(ctx):
     lean = core.lean_side(ctx.prop, ctx.tier)
+    core.drift(ctx, MODELLED)
     cases = list(gen_cases(ctx))
     evaluate(ctx, cases)
     for b in ("reflection-fix-taken", "reflection-fix-not-taken", "rank-2-data", "with-scale", "without-scale",
